@@ -10,11 +10,11 @@
    WF w s = words < 2^w, index inside the array, every word above index is zero and
             index is the highest non-zero word (0 for the value zero).
 
-   NOT proved here (tied by the correspondence run only): the wide-operand forms of
-   = += -= |= &=, = |= &= of a word, FindFirstBit / FindLastBit, the narrowing
-   conversion, copy-assignment. *)
+   NOT proved here (tied by the correspondence run only): |= and &= with an operand TYPE
+   at least two words wide (e.g. BigInt<uint8_t,64> |= uint64_t); move construction /
+   move assignment, SetIndex and writes through Storage() are not modelled. *)
 From Coq Require Import NArith List.
-From Qv Require Import BigIntModel BigIntProofs BigIntProofs2 BigIntHelpers BigIntDiv128 BigIntShift BigIntShiftL BigIntTop.
+From Qv Require Import BigIntModel BigIntProofs BigIntProofs2 BigIntHelpers BigIntDiv128 BigIntShift BigIntShiftL BigIntBits BigIntFfb BigIntWide BigIntNarrow BigIntSetWide BigIntTop.
 Import ListNotations.
 Local Open Scope N_scope.
 
@@ -105,6 +105,76 @@ Theorem c19_clear : forall w s, WF0 w s ->
 Proof. exact clear_correct. Qed.
 Print Assumptions c19_clear.
 
+(* operator=(word), |=, &= (D10 repaired), copy-assignment (D31 repaired) *)
+Theorem c19_assign_word : forall w s v, WF w s -> v < Bw w ->
+  exists s', assign w w s v = Ok s' /\ WF w s' /\ bval w s' = v /\ length (words s') = length (words s).
+Proof. exact assign_word_correct. Qed.
+Print Assumptions c19_assign_word.
+
+Theorem c19_and_word : forall w s v, WF w s -> v < Bw w ->
+  exists s', do_operation w KAnd w s v = Ok s' /\ WF w s' /\ bval w s' = N.land (bval w s) v /\
+             length (words s') = length (words s).
+Proof. exact and_word_correct. Qed.
+Print Assumptions c19_and_word.
+
+Theorem c19_or_word : forall w s v, WF w s -> v < Bw w ->
+  exists s', do_operation w KOr w s v = Ok s' /\ WF w s' /\ bval w s' = N.lor (bval w s) v /\
+             length (words s') = length (words s).
+Proof. exact or_word_correct. Qed.
+Print Assumptions c19_or_word.
+
+Theorem c19_copy_assign : forall w s src, WF w s -> WF w src -> length (words src) = length (words s) ->
+  exists s', copy_assign s src = Ok s' /\ WF w s' /\ bval w s' = bval w src /\
+             length (words s') = length (words s).
+Proof. exact copy_assign_correct. Qed.
+Print Assumptions c19_copy_assign.
+
+(* operator=(N_Number_T) with an operand type at least two words wide *)
+Theorem c19_assign_wide : forall w, 0 < w -> forall ow s v, 1 < ow / w -> WF w s ->
+  v < pw w (length (words s)) ->
+  exists s', assign w ow s v = Ok s' /\ WF w s' /\ bval w s' = v /\ length (words s') = length (words s).
+Proof. exact assign_wide_correct. Qed.
+Print Assumptions c19_assign_wide.
+
+(* explicit operator N_Number_T(): the value modulo 2^(bits of the target), for a target not
+   wider than a word or a whole number (>= 2) of words *)
+Theorem c19_narrowing_conversion : forall w, 0 < w -> forall s tw, WF w s ->
+  (tw <= w \/ exists c : nat, (2 <= c)%nat /\ tw = w * N.of_nat c) ->
+  narrow w s tw = Ok (bval w s mod 2 ^ tw).
+Proof. exact narrow_correct. Qed.
+Print Assumptions c19_narrowing_conversion.
+
+(* an operand type not wider than a word takes the template overload and gives the same result *)
+Theorem c19_narrow_operand_type : forall w, 0 < w -> forall k ow s v, ow / w <= 1 -> v < Bw w ->
+  do_operation_t w k ow s v = do_operation_s w k s v.
+Proof. exact do_operation_t_narrow. Qed.
+Print Assumptions c19_narrow_operand_type.
+
+(* += / -= with an operand type at least two words wide: one carry / borrow chain per operand word *)
+Theorem c19_add_wide : forall w, 0 < w -> forall ow s v, 1 < ow / w -> WF w s ->
+  bval w s + v < pw w (length (words s)) ->
+  exists s', do_operation_t w KAdd ow s v = Ok s' /\ WF w s' /\ bval w s' = bval w s + v /\
+             length (words s') = length (words s).
+Proof. exact add_wide_correct. Qed.
+Print Assumptions c19_add_wide.
+
+Theorem c19_sub_wide : forall w, 0 < w -> forall ow s v, 1 < ow / w -> WF w s -> v <= bval w s ->
+  exists s', do_operation_t w KSub ow s v = Ok s' /\ WF w s' /\ bval w s' + v = bval w s /\
+             length (words s') = length (words s).
+Proof. exact sub_wide_correct. Qed.
+Print Assumptions c19_sub_wide.
+
+(* FindFirstBit (D6 repaired) = number of trailing zero bits; FindLastBit = floor(log2) *)
+Theorem c19_find_first_bit : forall w, 0 < w -> forall s, WF w s -> bval w s <> 0 ->
+  find_first_bit w s = Ok (ctz (bval w s)).
+Proof. exact find_first_bit_correct. Qed.
+Print Assumptions c19_find_first_bit.
+
+Theorem c19_find_last_bit : forall w, 0 < w -> forall s, WF w s -> bval w s <> 0 ->
+  find_last_bit w s = Ok (N.log2 (bval w s)).
+Proof. exact find_last_bit_correct. Qed.
+Print Assumptions c19_find_last_bit.
+
 (* Index() is the word of the highest set bit of the value *)
 Theorem c19_index_is_top_word : forall w, 0 < w -> forall s, WF w s -> index s = top_index w (bval w s).
 Proof. exact WF_index_top. Qed.
@@ -124,8 +194,9 @@ Theorem c19_step : forall w, 0 < w -> forall n s o v' r,
 Proof. intros w Hw. exact (step_correct w Hw (mul2_ok_all w Hw) (div2_ok_all w)). Qed.
 Print Assumptions c19_step.
 
-(* every history of Add / Subtract (at any word), += / -= word, Multiply, Divide, <<=, >>=,
-   Clear: as long
+(* every history of the operations of [proved_op] (Add / Subtract at any word, = += -= and
+   copy-assignment with any operand type, |= &= with operand types up to one word, *=, Divide,
+   <<=, >>=, Clear, FindFirstBit, FindLastBit, the comparisons, the conversion): as long
    as the specification speaks (results fit, preconditions hold) no step errs, every
    state satisfies the invariant and holds exactly the specified integer, every returned
    remainder is exact *)
@@ -148,3 +219,12 @@ Proof.
   - rewrite Hz. exact Hs.
 Qed.
 Print Assumptions c19_history_from_zero.
+
+(* non-vacuity: [proved_op] covers a concrete mixed history on 8-bit words (uint8/uint64 operands)
+   on which the specification speaks at every step *)
+Theorem c19_history_nonvacuous :
+  let ops := [OSet 64 18446744073709551615; OShr 9; OMul 255; OAdd 64 4294967296; OSub 8 7; ODiv 129;
+              OShl 13; OFfb; OFlb; OCmp 5; ONarrow 16; OAnd 8 240; OOr 8 1; OCopy 64 65536; OClear] in
+  Forall (proved_op 8) ops /\ exists outs, spec_run 8 9 0 ops = Some outs /\ length outs = 15%nat.
+Proof. exact history_nonvacuous. Qed.
+Print Assumptions c19_history_nonvacuous.
